@@ -213,6 +213,77 @@ impl G {
     }
 }
 
+#[derive(Clone, Copy)]
+pub enum O {
+    Add,
+    Max,
+    Min,
+}
+impl O {
+    pub fn parse(v: &Value) -> O {
+        match v.as_str() {
+            Some("max") => O::Max,
+            Some("min") => O::Min,
+            _ => O::Add,
+        }
+    }
+    pub fn ap(self, a: u64, x: u64) -> u64 {
+        match self {
+            O::Add => a + x,
+            O::Max => a.max(x),
+            O::Min => a.min(x),
+        }
+    }
+}
+
+/// A scripted future: answers Pending `pends` times, then Ready(v).
+pub struct Fv {
+    v: u64,
+    pends: u64,
+}
+impl std::future::Future for Fv {
+    type Output = u64;
+    fn poll(self: Pin<&mut Self>, _cx: &mut std::task::Context<'_>) -> std::task::Poll<u64> {
+        let this = self.get_mut();
+        if this.pends > 0 {
+            this.pends -= 1;
+            std::task::Poll::Pending
+        } else {
+            std::task::Poll::Ready(this.v)
+        }
+    }
+}
+
+/// The future-readiness oracle for ResolveFutures: a FIFO queue that polls its head future.
+#[derive(Default)]
+pub struct ScriptQueue(VecDeque<Fv>);
+impl Extend<Fv> for ScriptQueue {
+    fn extend<I: IntoIterator<Item = Fv>>(&mut self, iter: I) {
+        self.0.extend(iter);
+    }
+}
+impl futures::Stream for ScriptQueue {
+    type Item = u64;
+    fn poll_next(self: Pin<&mut Self>, cx: &mut std::task::Context<'_>) -> std::task::Poll<Option<u64>> {
+        let this = self.get_mut();
+        match this.0.front_mut() {
+            None => std::task::Poll::Ready(None),
+            Some(f) => match Pin::new(f).poll(cx) {
+                std::task::Poll::Ready(v) => {
+                    this.0.pop_front();
+                    std::task::Poll::Ready(Some(v))
+                }
+                std::task::Poll::Pending => std::task::Poll::Pending,
+            },
+        }
+    }
+}
+impl futures::stream::FusedStream for ScriptQueue {
+    fn is_terminated(&self) -> bool {
+        false
+    }
+}
+
 pub fn items_of(case: &Value) -> Vec<Vec<u64>> {
     case["items"]
         .as_array()
@@ -234,6 +305,25 @@ pub fn finish(out: &str, tr: String, logs: &[Log]) -> Value {
         "trace": tr,
         "logs": logs.iter().map(|l| Value::Array(l.borrow().clone())).collect::<Vec<_>>(),
     })
+}
+
+/// Fixes the Meta parameter of a push that is generic in it (ForEach), forwarding every call.
+struct UnitMeta<P>(P);
+impl<P: Push<u64, ()> + Unpin> Push<u64, ()> for UnitMeta<P> {
+    type Ctx<'ctx> = P::Ctx<'ctx>;
+    type CanPend = P::CanPend;
+    fn poll_ready(self: Pin<&mut Self>, ctx: &mut Self::Ctx<'_>) -> PushStep<Self::CanPend> {
+        Pin::new(&mut self.get_mut().0).poll_ready(ctx)
+    }
+    fn start_send(self: Pin<&mut Self>, item: u64, meta: ()) {
+        Pin::new(&mut self.get_mut().0).start_send(item, meta)
+    }
+    fn poll_finalize(self: Pin<&mut Self>, ctx: &mut Self::Ctx<'_>) -> PushStep<Self::CanPend> {
+        Pin::new(&mut self.get_mut().0).poll_finalize(ctx)
+    }
+    fn size_hint(self: Pin<&mut Self>, hint: (usize, Option<usize>)) {
+        Pin::new(&mut self.get_mut().0).size_hint(hint)
+    }
 }
 
 fn run_push(case: &Value) -> Value {
@@ -307,6 +397,74 @@ fn run_push(case: &Value) -> Value {
                     &mut ()
                 ),
             }
+        }
+        "fold" => {
+            let o = O::parse(&case["o"]);
+            let init = case["init"].as_u64().unwrap_or(0);
+            drive!(push::fold(init, move |acc: &mut u64, x: u64| *acc = o.ap(*acc, x), rec(0)), ns(), fuel, &mut ())
+        }
+        "reduce" => {
+            let o = O::parse(&case["o"]);
+            let init = case["init"].as_u64();
+            drive!(push::reduce(init, move |acc: &mut u64, x: u64| *acc = o.ap(*acc, x), rec(0)), ns(), fuel, &mut ())
+        }
+        "sort_acc" => {
+            drive!(push::accumulate(push::SortState::<u64>::new(), rec(0)), ns(), fuel, &mut ())
+        }
+        "sort" => {
+            drive!(push::sort::<u64, _>(rec(0)), ns(), fuel, &mut ())
+        }
+        "persist" => {
+            let mut buf: Vec<u64> =
+                case["pre"].as_array().map(|a| a.iter().map(|x| x.as_u64().unwrap()).collect()).unwrap_or_default();
+            let replay = case["replay"].as_bool().unwrap_or(false);
+            let r = drive!(push::persist_state(&mut buf, replay, rec(0)), ns(), fuel, &mut ());
+            let bl = new_log();
+            for x in &buf {
+                bl.borrow_mut().push(json!(["s", *x]));
+            }
+            return finish(r.0, r.1, &[logs[0].clone(), bl]);
+        }
+        "for_each" => {
+            let seen = new_log();
+            let seen2 = seen.clone();
+            let r = drive!(UnitMeta(push::for_each(move |x: u64| seen2.borrow_mut().push(json!(["s", x])))), ns(), fuel, &mut ());
+            return finish(r.0, r.1, &[seen]);
+        }
+        "fold_keyed" | "reduce_keyed" => {
+            let o = O::parse(&case["o"]);
+            let init = case["init"].as_u64().unwrap_or(0);
+            let ps = items.iter().map(|i| (nth(i, 0), nth(i, 1))).collect::<Vec<_>>();
+            let mut map = std::collections::HashMap::<u64, u64>::new();
+            let next = push::map(|(k, v): (u64, u64)| k * 100000 + v, rec(0));
+            if comb == "fold_keyed" {
+                let fk = push::FoldKeyed::new(&mut map, move || init, move |acc: &mut u64, v: u64| *acc = o.ap(*acc, v), next);
+                drive!(fk, ps, fuel, &mut ())
+            } else {
+                let rk = push::ReduceKeyed::new(&mut map, move |acc: &mut u64, v: u64| *acc = o.ap(*acc, v), next);
+                drive!(rk, ps, fuel, &mut ())
+            }
+        }
+        "resolve" => {
+            let waker = if case["waker"].as_bool().unwrap_or(false) { Some(std::task::Waker::noop().clone()) } else { None };
+            let fs = items.iter().map(|i| Fv { v: nth(i, 0), pends: nth(i, 1) }).collect::<Vec<_>>();
+            let mut queue = ScriptQueue::default();
+            let mut cx = std::task::Context::from_waker(std::task::Waker::noop());
+            let r = drive!(push::resolve_futures_state(&mut queue, waker, rec(0)), fs, fuel, &mut cx);
+            let ql = new_log();
+            for f in &queue.0 {
+                ql.borrow_mut().push(json!(["s", f.v]));
+            }
+            return finish(r.0, r.1, &[logs[0].clone(), ql]);
+        }
+        // consequence probe (no Coq model): resolve_futures(subgraph waker) -> fold -> downstream 0
+        "resolve_fold" => {
+            let waker = if case["waker"].as_bool().unwrap_or(true) { Some(std::task::Waker::noop().clone()) } else { None };
+            let fs = items.iter().map(|i| Fv { v: nth(i, 0), pends: nth(i, 1) }).collect::<Vec<_>>();
+            let mut queue = ScriptQueue::default();
+            let mut cx = std::task::Context::from_waker(std::task::Waker::noop());
+            let fold = push::fold(0u64, |acc: &mut u64, x: u64| *acc += x, rec(0));
+            drive!(push::resolve_futures_state(&mut queue, waker, fold), fs, fuel, &mut cx)
         }
         // consequence probe for finding multi-downstream/poll_finalize-after-Done (no Coq model):
         // fanout(fold_keyed(.., downstream 0), downstream 1); items are (key, value) pairs
